@@ -3,6 +3,7 @@ use crate::directive::Directive;
 use crate::directive::DirectiveLocation;
 use crate::input_value::InputValueDef;
 use crate::name::Name;
+use crate::ty::Ty;
 use crate::DocumentBuilder;
 use apollo_compiler::ast;
 use apollo_compiler::Node;
@@ -148,11 +149,20 @@ impl DocumentBuilder<'_> {
             .filter(|io| io.name == name)
             .flat_map(|io| io.fields.iter().map(|f| f.name.clone()))
             .collect();
-        let fields = self.input_values_def(
+        let mut fields = self.input_values_def(
             DirectiveLocation::InputFieldDefinition,
             &exclude_fields,
             Some(&name),
         )?;
+        if extend {
+            // Values of this type may already have been generated (default values of fields and
+            // arguments): a field added later must not be required, or those values become invalid.
+            for field in &mut fields {
+                if let Ty::NonNull(inner) = &field.ty {
+                    field.ty = (**inner).clone();
+                }
+            }
+        }
 
         let directives = self.directives(DirectiveLocation::InputObject)?;
 
